@@ -24,7 +24,6 @@ def mk(side, wt, bt, wi, bi, mtg, movetime, depth, order):
 def oracle(c, ans):
     """the property itself: returns None if fine, else a description"""
     if ans in ('PANIC', 'NOSEARCH') or ans.startswith('<'):
-        if c['depth'] is not None and not (-128 <= c['depth'] <= 127): return None   # C03/C13 territory, not C10
         return 'no search started: ' + ans
     d, mt = [int(x) for x in ans.split()]
     mytime = c['wt'] if c['side'] == 1 else c['bt']
